@@ -200,7 +200,23 @@ func checkC15(w *World, r *Report) {
 			call, _ = ex.Tuple.(*ssa.Call)
 		}
 		if call == nil || call.Call.StaticCallee() == nil || !w.inMod[call.Call.StaticCallee()] || len(call.Call.Args) != 3 {
-			r.Fail("C15.R1", key, what, w.pos(iv.Pos()), "the index is "+w.pathOf(iv)+", not the first result of a lookup(map, key, table) call")
+			// no helper: the idiom written out in the loop
+			m, kp, okI, detail := inlineLookup(w, g, iv, tv, sp.keyWant, sp.keyDesc)
+			if okI {
+				if other, dup := maps[m]; dup {
+					okI, detail = false, "the lookup map is shared with "+other+": indices of two tables are mixed"
+				}
+			}
+			if !okI {
+				r.Fail("C15.R1", key, what, w.pos(iv.Pos()), detail)
+				continue
+			}
+			maps[m] = sp.table
+			if i := strings.Index(kp, "assert<*remote.streamDeliver>("); i >= 0 {
+				deliverRoots[kp[i:strings.LastIndex(kp, ".")]] = true
+			}
+			r.OK("C15.R1", key, what, w.pos(iv.Pos()))
+			r.OK("C15.R2", fname(W)+":"+sp.table+"-lookup-inline", "miss: m[key] = len(m) (read before the insert) and the item is appended; hit: stored index, table unchanged", w.pos(iv.Pos()))
 			continue
 		}
 		// table shipped = phi over (initial empty table, second result of the same call)
@@ -385,6 +401,9 @@ func checkC15(w *World, r *Report) {
 			p := w.pathOf(v)
 			if strings.HasPrefix(p, "(call:Serializer.Serialize(") && strings.HasSuffix(p, "#1!=K:nil)") {
 				return true, true
+			}
+			if strings.HasPrefix(p, "(call:Serializer.Serialize(") && strings.HasSuffix(p, "#1==K:nil)") {
+				return false, true
 			}
 			if strings.HasPrefix(p, "assert<*remote.streamDeliver>(") && strings.HasSuffix(p, "#1") {
 				return false, true
@@ -863,12 +882,12 @@ func checkC16(w *World, r *Report) {
 		g := w.FGI(F)
 		errEdges, _ := g.CondEdges(func(v ssa.Value) (bool, bool) {
 			b, ok := v.(*ssa.BinOp)
-			if !ok || b.Op != token.NEQ {
+			if !ok || (b.Op != token.NEQ && b.Op != token.EQL) {
 				return false, false
 			}
 			x, y := w.pathOf(b.X), w.pathOf(b.Y)
 			if y == "K:nil" && strings.HasSuffix(x, "#1") && (strings.HasPrefix(x, "call:Deserializer.Deserialize(") || strings.HasPrefix(x, "call:DRPCRemote_ReceiveStream.Recv(")) {
-				return true, true
+				return b.Op == token.NEQ, true
 			}
 			return false, false
 		})
@@ -1027,67 +1046,8 @@ func checkC17(w *World, r *Report) {
 	w.checkRow(r, row{rule: "C17.R1", fn: a.wSend, callee: EvInvoke("Inboxer.Send", w.IfaceMethod("actor", "Inboxer", "Send")), name: "Inboxer.Send",
 		args: []string{"P0.inbox", "lit:Envelope{Msg=P2,Sender=P3}"}, why: "The writer drops or alters queued deliveries."})
 
-	// R2
-	deliver := w.Method("remote", "streamRouter", "deliverStream")
-	rrecv := w.Method("remote", "streamRouter", "Receive")
-	term := w.Method("remote", "streamRouter", "handleTerminateStream")
-	if deliver == nil || rrecv == nil {
-		r.Unknown("C17.R2", "router", "router methods", "-", "streamRouter.deliverStream / Receive not found")
-	} else {
-		g := w.FGI(deliver)
-		site := w.fnPos(deliver)
-		var lk *ssa.Lookup
-		for _, in := range g.ins {
-			if l, ok := in.(*ssa.Lookup); ok && w.pathOf(l.X) == "P0.streams" {
-				lk = l
-			}
-		}
-		ok := lk != nil && w.pathOf(lk.Index) == "P1.target.Address"
-		detail := "the writer table is not looked up by msg.target.Address"
-		var hit, miss []Edge
-		if ok {
-			hit, miss = g.CondEdges(func(v ssa.Value) (bool, bool) {
-				if e, isE := v.(*ssa.Extract); isE && e.Tuple == ssa.Value(lk) && e.Index == 1 {
-					return true, true
-				}
-				return false, false
-			})
-			spawn := w.callsIn(deliver, EvCall("SpawnProc", w.Method("actor", "Engine", "SpawnProc")))
-			if len(spawn) != 1 || len(miss) == 0 || !g.OnlyVia(miss, g.idx[spawn[0].(ssa.Instruction)]) {
-				ok, detail = false, "a writer is spawned outside the miss edge (one writer per message)"
-			} else {
-				sp := w.pathOf(spawn[0].(*ssa.Call))
-				if !strings.Contains(sp, "newStreamWriter(P0.engine,P0.pid,P1.target.Address,") {
-					ok, detail = false, "the writer is not created for msg.target.Address with the router's pid: "+sp
-				}
-				rec := false
-				for i, in := range g.ins {
-					if mu, isM := in.(*ssa.MapUpdate); isM && w.pathOf(mu.Map) == "P0.streams" && w.pathOf(mu.Key) == "P1.target.Address" && w.pathOf(mu.Value) == sp && g.OnlyVia(miss, i) {
-						rec = true
-						// every miss path records
-						if !g.After(g.idx[spawn[0].(ssa.Instruction)], setOf(len(g.ins), i)) {
-							rec = false
-						}
-					}
-				}
-				if !rec {
-					ok, detail = false, "the new writer is not recorded under its address on the miss edge: the next message spawns another one (duplicate id) and ordering between the two is lost"
-				}
-			}
-			_ = hit
-		}
-		r.Check(ok, "C17.R2", fname(deliver)+":one-writer-per-address", "streams[msg.target.Address] is consulted; a writer is spawned and stored only on the miss edge", site, detail)
-		w.checkRow(r, row{rule: "C17.R2", fn: deliver, callee: EvCall("Engine.Send", eSend), name: "Engine.Send",
-			args: []string{"P0.engine", "re:phi\\(.*\\)", "P1"}, why: "A delivery is not forwarded exactly once to the address's writer."})
-		// Receive dispatches *streamDeliver to deliverStream
-		okD := false
-		for _, ci := range w.callsIn(rrecv, EvCall("deliverStream", deliver)) {
-			if strings.HasPrefix(w.pathOf(ci.Common().Args[1]), "assert<*remote.streamDeliver>(") && callKind(ci) == "call" {
-				okD = true
-			}
-		}
-		r.Check(okD, "C17.R2", fname(rrecv)+":dispatch-deliver", "the router hands every *streamDeliver to deliverStream", w.fnPos(rrecv), "streamDeliver messages are not routed")
-	}
+	// R2 and R4: the router (rules_remote2.go)
+	checkRouter(w, r, eSend)
 	// R3
 	{
 		ig := w.FGI(a.wInit)
@@ -1120,11 +1080,11 @@ func checkC17(w *World, r *Report) {
 			"an unreachable peer leaves a registered writer without connection: no RemoteUnreachableEvent, messages pile up in its inbox instead of dead-lettering")
 		recvErr, _ := ig.CondEdges(func(v ssa.Value) (bool, bool) {
 			b, ok := v.(*ssa.BinOp)
-			if !ok || b.Op != token.NEQ {
+			if !ok || (b.Op != token.NEQ && b.Op != token.EQL) {
 				return false, false
 			}
 			x := w.pathOf(b.X)
-			return true, w.pathOf(b.Y) == "K:nil" && strings.HasPrefix(x, "call:DRPCRemoteClient.Receive(") && strings.HasSuffix(x, "#1")
+			return b.Op == token.NEQ, w.pathOf(b.Y) == "K:nil" && strings.HasPrefix(x, "call:DRPCRemoteClient.Receive(") && strings.HasSuffix(x, "#1")
 		})
 		okRE := len(recvErr) > 0
 		for _, e := range recvErr {
@@ -1140,8 +1100,14 @@ func checkC17(w *World, r *Report) {
 		okLC := false
 		for _, in := range ig.ins {
 			if gi, ok := in.(*ssa.Go); ok {
+				// `go func(){...}()` or `go s.method()`
+				var cf *ssa.Function
 				if mc, ok := gi.Call.Value.(*ssa.MakeClosure); ok {
-					cf := mc.Fn.(*ssa.Function)
+					cf, _ = mc.Fn.(*ssa.Function)
+				} else if sc := gi.Call.StaticCallee(); sc != nil && sc.Blocks != nil && w.isLib(sc) {
+					cf = sc
+				}
+				if cf != nil {
 					cg := w.FGI(cf)
 					if cg.AfterEntry(w.Nodes(cg, EvCall("Shutdown", a.wShutdown), true)) {
 						for _, x := range cg.ins {
@@ -1239,6 +1205,9 @@ func checkC17(w *World, r *Report) {
 			if strings.HasPrefix(p, "(call:Serializer.Serialize(") && strings.HasSuffix(p, "#1!=K:nil)") {
 				return true, true
 			}
+			if strings.HasPrefix(p, "(call:Serializer.Serialize(") && strings.HasSuffix(p, "#1==K:nil)") {
+				return false, true
+			}
 			if strings.HasPrefix(p, "assert<*remote.streamDeliver>(") && strings.HasSuffix(p, "#1") {
 				return false, true
 			}
@@ -1285,38 +1254,6 @@ func checkC17(w *World, r *Report) {
 			"a writer whose stream was closed by the peer stays registered: every later message for that address is silently lost, no RemoteUnreachableEvent, no re-dial")
 	}
 	checkReaderDelivery(w, r, a, "C17.R6")
-	// R4
-	if term == nil || rrecv == nil {
-		r.Unknown("C17.R4", "router", "router terminate handler", "-", "not found")
-	} else {
-		ok := false
-		for _, in := range w.insOf(term) {
-			{
-				if c, isC := in.(*ssa.Call); isC {
-					if args, isD := isBuiltinCall(c, "delete"); isD && w.pathOf(args[0]) == "P0.streams" && w.pathOf(args[1]) == "P1.ListenAddr" {
-						ok = true
-					}
-				}
-			}
-		}
-		tg := w.FGI(term)
-		D := make([]bool, len(tg.ins))
-		for i, in := range tg.ins {
-			if c, isC := in.(*ssa.Call); isC {
-				if _, isD := isBuiltinCall(c, "delete"); isD {
-					D[i] = true
-				}
-			}
-		}
-		r.Check(ok && tg.AfterEntry(D), "C17.R4", fname(term)+":forgets-writer", "delete(streams, ev.ListenAddr) on every path", w.fnPos(term), "the router keeps the dead writer: every later message for that address dead-letters, no re-dial")
-		okD := false
-		for _, ci := range w.callsIn(rrecv, EvCall("terminate", term)) {
-			if strings.HasPrefix(w.pathOf(ci.Common().Args[1]), "assert<actor.RemoteUnreachableEvent>(") && callKind(ci) == "call" {
-				okD = true
-			}
-		}
-		r.Check(okD, "C17.R4", fname(rrecv)+":dispatch-unreachable", "the router hands RemoteUnreachableEvent to the terminate handler", w.fnPos(rrecv), "RemoteUnreachableEvent is ignored by the router")
-	}
 	// R5
 	{
 		rstart := w.Method("remote", "Remote", "Start")
@@ -1522,4 +1459,132 @@ func g2nil(w *World, g *FG, pred func(string) bool) (isNil, nonNil []Edge) {
 		}
 		return b.Op == token.EQL, true
 	})
+}
+
+// inlineLookup: the lookup idiom written out in the writer's batch loop instead of a helper:
+//
+//	id, ok := M[K]; if !ok { id = len(M); M[K] = id; table = append(table, item) }
+//
+// iv is the index stored in the Message literal, tv the table shipped in the Envelope. Conditions are
+// those of checkLookupHelper, on values instead of parameters. Returns the per-batch map.
+func inlineLookup(w *World, g *FG, iv, tv ssa.Value, keyWant func(string) bool, keyDesc string) (m ssa.Value, key string, ok bool, detail string) {
+	ph, isPhi := stripConv(iv).(*ssa.Phi)
+	if !isPhi || len(ph.Edges) != 2 {
+		return nil, "", false, "the index is " + w.pathOf(iv) + ": neither the result of a lookup helper nor the inline form phi(M[K], len(M))"
+	}
+	var lk *ssa.Lookup
+	var lenV ssa.Value
+	for _, e := range ph.Edges {
+		if ex, isEx := stripConv(e).(*ssa.Extract); isEx && ex.Index == 0 {
+			if l, isL := ex.Tuple.(*ssa.Lookup); isL && l.CommaOk {
+				lk = l
+				continue
+			}
+		}
+		lenV = e
+	}
+	if lk == nil || lenV == nil {
+		return nil, "", false, "the index is " + w.pathOf(iv) + ", not phi(M[K], len(M))"
+	}
+	m = lk.X
+	key = w.pathOf(lk.Index)
+	if _, isMap := m.(*ssa.MakeMap); !isMap {
+		return m, key, false, "the lookup map is not a per-batch map"
+	}
+	if p := w.pathOf(lenV); p != "conv<int32>(len("+w.pathOf(m)+"))" && p != "len("+w.pathOf(m)+")" {
+		return m, key, false, "the new index is " + p + ", not len(map)"
+	}
+	if !keyWant(key) {
+		return m, key, false, "the lookup is keyed by " + key + " instead of " + keyDesc
+	}
+	hit, miss := g.CondEdges(func(v ssa.Value) (bool, bool) {
+		if e, isE := v.(*ssa.Extract); isE && e.Tuple == ssa.Value(lk) && e.Index == 1 {
+			return true, true
+		}
+		return false, false
+	})
+	if len(hit) == 0 || len(miss) == 0 {
+		return m, key, false, "the comma-ok result of the lookup is not tested"
+	}
+	// exactly one insert into M, with the looked-up key and the new index, on the miss edge
+	var mu *ssa.MapUpdate
+	n := 0
+	for _, in := range g.ins {
+		if u, isU := in.(*ssa.MapUpdate); isU && u.Map == m {
+			mu = u
+			n++
+		}
+	}
+	if n != 1 {
+		return m, key, false, fmt.Sprintf("%d inserts into the lookup map", n)
+	}
+	mun := g.idx[mu]
+	if w.pathOf(mu.Key) != key || stripConv(mu.Value) != stripConv(lenV) {
+		return m, key, false, "the insert stores " + w.pathOf(mu.Key) + " -> " + w.pathOf(mu.Value) + ", not the looked-up key -> len(map)"
+	}
+	// the table: the shipped value is the loop-carried table, appended to on the miss edge only
+	var apps []*ssa.Call
+	seen := map[ssa.Value]bool{}
+	okLeaves := true
+	var walk func(v ssa.Value)
+	walk = func(v ssa.Value) {
+		if seen[v] {
+			return
+		}
+		seen[v] = true
+		switch x := v.(type) {
+		case *ssa.Phi:
+			for _, e := range x.Edges {
+				walk(e)
+			}
+		case *ssa.Call:
+			if args, isA := isBuiltinCall(x, "append"); isA {
+				apps = append(apps, x)
+				walk(args[0])
+				return
+			}
+			okLeaves = false
+		case *ssa.MakeSlice, *ssa.Slice:
+		case *ssa.Const:
+			if !x.IsNil() {
+				okLeaves = false
+			}
+		default:
+			okLeaves = false
+		}
+	}
+	walk(tv)
+	if !okLeaves || len(apps) != 1 {
+		return m, key, false, fmt.Sprintf("the shipped table is not one loop-carried slice with a single append (%d appends)", len(apps))
+	}
+	app := apps[0]
+	appn := g.idx[app]
+	vals := w.appended(app)
+	if len(vals) != 1 {
+		return m, key, false, "the append does not add exactly one item"
+	}
+	item := w.pathOf(vals[0])
+	if item != key && !strings.Contains(key, "="+item+".") {
+		return m, key, false, "the appended item " + item + " is not the subject of the key " + key
+	}
+	if !g.OnlyVia(miss, mun) || !g.OnlyVia(miss, appn) {
+		return m, key, false, "the insert / append is not confined to the miss edge: a repeated key gets a second table entry, indices drift from the table"
+	}
+	A := setOf(len(g.ins), mun)
+	B := setOf(len(g.ins), appn)
+	if !actionOnEdge(g, miss, A) || !actionOnEdge(g, miss, B) {
+		return m, key, false, "a new key is not always inserted and appended"
+	}
+	// len(M) is read before the insert, in the same iteration
+	if lc, isI := stripConv(lenV).(ssa.Instruction); isI {
+		ln := setOf(len(g.ins), g.idx[lc])
+		if !g.Before(ln, mun) || g.reach(g.succ[mun], ln, nil)[mun] {
+			return m, key, false, "len(map) is not read before each insert: indices do not match table positions"
+		}
+		if rr := g.reach(g.succ[mun], A, nil); rr[g.idx[lc]] && !g.OnlyVia(miss, g.idx[lc]) {
+			// read on every iteration before the lookup: fine as long as no insert lies between it and the lookup's miss edge
+			_ = rr
+		}
+	}
+	return m, key, true, ""
 }
